@@ -233,12 +233,20 @@ def St.carryOneMove (s : St) (p : Path) (a : Addr) (m : Method) (force : Bool) :
 def St.linksTo (s : St) (p : Path) (a : Addr) : Bool :=
   (match s.ws p with | some (.sym a') => decide (a' = a) | _ => false) && (s.cache a).isSome
 
+/-- the path is a hard link of the cached copy at `a` itself (the same inode under two names) -/
+def St.hardLinkOf (s : St) (p : Path) (a : Addr) : Bool :=
+  (match s.ws p with | some (.file _ _ _ (some a')) => decide (a' = a) | _ => false) && (s.cache a).isSome
+
 /-- the closure `copy_path_to_cache_and_recheck` of `carry_in` for one entity: a link to the cached copy itself is
     only re-materialised, also with `--force` (there is nothing to replace; removing the object would remove the
     content) -/
 def St.carryOne (s : St) (p : Path) (a : Addr) (m : Method) (force : Bool) : St × Out :=
   if s.linksTo p a then
     (s.setWs p none).recheckFromCache p a m
+  else if force && s.hardLinkOf p a then
+    -- `--force` on a HARD link of the cached copy: the cached copy is unlinked and the link is renamed onto its address.
+    -- It is the same inode: the object - and every other hard link of it - is what it was; the path is re-materialised.
+    ({ s.setWs p none with dirRo := upd s.dirRo a.d true }).recheckFromCache p a m
   else s.carryOneMove p a m force
 
 /-! ## `track` -/
